@@ -13,6 +13,7 @@ import (
 type c04Mon struct {
 	dead   bool  // a callback has returned the error that must end the run
 	cause  error // the sentinel underneath (errors.Is target)
+	exact  error // the exact error value the callback returned
 	form   int
 	code   int
 	calls  int
@@ -25,16 +26,17 @@ func (m *c04Mon) end() error {
 	switch m.form {
 	case 0:
 		m.cause = vNewErr()
-		return m.cause
+		m.exact = m.cause
 	case 1:
 		m.cause = vNewErr()
-		return fmt.Errorf("callback context: %w", m.cause)
+		m.exact = fmt.Errorf("callback context: %w", m.cause)
 	default:
 		m.code = vNondet[int]("errCode")
 		e := vCustomErr{code: m.code}
 		m.cause = e
-		return e
+		m.exact = e
 	}
+	return m.exact
 }
 
 func (m *c04Mon) enter() {
@@ -53,6 +55,7 @@ func (m *c04Mon) finish(err error) {
 	if err == nil {
 		return
 	}
+	vAssert(errors.Is(err, m.exact), "is-the-exact-error-value-the-callback-returned")
 	switch m.form {
 	case 0:
 		vCover("form-sentinel")
